@@ -1025,6 +1025,12 @@ def r4_13(ctx, rc):
     query although its directory is reserved, and is deleted at commit."""
     from .c08 import r8_2b
     r8_2b(ctx, rc)
+    # ... and every record reaches the cache file (R16.5, R16.6): an output
+    # the next build does not know as the previous build's is shown as an
+    # ordinary existing file and never removed
+    from .c16 import r16_5, r16_6
+    r16_5(ctx, rc)
+    r16_6(ctx, rc)
 
 
 RULES = [
